@@ -92,6 +92,8 @@ def accessors(qr):
     A["FrequencyAxis.start"] = (lambda x: q.FrequencyAxis(x, 4, x / 10.0), lambda o: o.start)
     A["FrequencyAxis.step"] = (lambda x: q.FrequencyAxis(x, 4, x), lambda o: o.step)
     A["FrequencyAxis.data"] = (lambda x: q.FrequencyAxis(x, 4, x / 10.0), lambda o: o.data[0])
+    # an axis mapped to the time domain and back while the supplying context is active is the same axis
+    A["FrequencyAxis.get_TimeAxis().get_FrequencyAxis().data"] = (lambda x: q.FrequencyAxis(x, 5, abs(x) / 10.0 + 1e-3).get_TimeAxis().get_FrequencyAxis(), lambda o: o.data[0])
 
     def agg_set(x):
         a = q.Aggregate([q.Molecule([0, 1.0]), q.Molecule([0, 1.0])])
@@ -156,6 +158,8 @@ def run_case(case, ctx):
                     if name.startswith("Mode") and x <= 0:
                         continue
                     if ("reorg" in name or "width" in name or name == "FrequencyAxis.step") and x <= 0:
+                        continue
+                    if name.startswith("FrequencyAxis.get_TimeAxis") and (u1 == "nm" or u2 == "nm" or x == 0.0):
                         continue
                     if name == "FrequencyAxis.step" and (u1 == "nm" or u2 == "nm"):
                         # wavelength is not linear in frequency: an axis *step* has no nm value
